@@ -520,9 +520,8 @@ def inst_trait_cases():
     """a trait that declares an abstract method (T1: f abstract, t concrete) or provides one (T2: f with a body), used by
     a class at every position of a 1-3 class chain (root, class with a concrete / abstract parent, abstract intermediate
     class above a concrete leaf); the using class and the leaf with and without their own f; T2 satisfying an interface.
-    In the table a trait's methods count as declared by the using class unless it declares the name itself (mergeTraits).
-    Not generated: the requirement satisfied only by a PARENT's f (refused by the code as written: a known false positive
-    of mergeTraits, see DESIGN)."""
+    In the table a trait's methods count as declared by the using class unless it declares the name itself (mergeTraits);
+    a trait's abstract method that an ancestor already implements is a met requirement (nothing declared)."""
     traits = [("T1", [("f", True), ("t", False)]), ("T2", [("f", False)])]
     cases = []
     for own in ([], [("f", False)]):
@@ -536,6 +535,17 @@ def inst_trait_cases():
             for leaf in ([], [("f", False)]):
                 cases.append(inst_build([par, ("C2", "C1", True, [], own, ["T1"]), ("C3", "C2", False, [], leaf)], [], traits))
                 cases.append(inst_build([par, ("C2", "C1", True, [], own, ["T1"]), ("C3", "C2", True, [], []), ("C4", "C3", False, [], leaf)], [], traits))
+    # the trait's abstract requirement met by an INHERITED method: of the direct parent, of a grandparent (through a
+    # concrete or an abstract intermediate class), with the trait on the leaf or on the abstract intermediate class
+    fb = [("f", False)]
+    cases.append(inst_build([("C1", None, False, [], fb), ("C2", "C1", False, [], [], ["T1"])], [], traits))
+    cases.append(inst_build([("C1", None, True, [], fb), ("C2", "C1", False, [], [], ["T1"])], [], traits))
+    cases.append(inst_build([("C1", None, False, [], fb), ("C2", "C1", False, [], [("g", False)]), ("C3", "C2", False, [], [], ["T1"])], [], traits))
+    cases.append(inst_build([("C1", None, False, [], fb), ("C2", "C1", True, [], []), ("C3", "C2", False, [], [], ["T1"])], [], traits))
+    cases.append(inst_build([("C1", None, False, [], fb), ("C2", "C1", True, [], [], ["T1"]), ("C3", "C2", False, [], [])], [], traits))
+    cases.append(inst_build([("C1", None, True, [], fb), ("C2", "C1", True, [], [], ["T1"]), ("C3", "C2", True, [], []), ("C4", "C3", False, [], [])], [], traits))
+    # ... and NOT met when the inherited f is itself abstract
+    cases.append(inst_build([("C1", None, True, [], [("f", True)]), ("C2", "C1", False, [], [], ["T1"])], [], traits))
     # a trait method with a body satisfies an interface / an abstract method of the parent
     ifs = [("I1", [], ["f"])]
     cases.append(inst_build([("C1", None, False, ["I1"], [], ["T2"])], ifs, traits))
@@ -555,13 +565,26 @@ def inst_build(classes, ifaces, traits=()):
     for tname, ms in traits:
         L.append("trait %s { %s }" % (tname, " ".join(("abstract public function %s();" % x) if ab else ("public function %s() { return 1; }" % x) for x, ab in ms)))
     merged = []
+    mtab = {}
     for name, par, abstract, impls, ms, uses in classes:
         body = " ".join(["use %s;" % u for u in uses] +
                         [("abstract public function %s();" % x) if ab else ("public function %s() { return 1; }" % x) for x, ab in ms])
         L.append("%sclass %s%s%s { %s }" % ("abstract " if abstract else "", name, (" extends " + par) if par else "",
                                             (" implements " + ", ".join(impls)) if impls else "", body))
         own = set(x for x, _ in ms)
-        merged.append((name, par, abstract, impls, list(ms) + [(x, ab) for u in uses for x, ab in tmeths[u] if x not in own]))
+        # a trait's method counts as declared by the using class unless the class declares the name itself; a trait's
+        # ABSTRACT method is a requirement: when an ancestor already provides the method with a body the requirement is
+        # met and nothing is declared (PHP: the inherited method satisfies it)
+        def inherited_body(x):
+            a = par
+            while a is not None:
+                if any(n == x and not ab_ for n, ab_ in mtab[a][1]):
+                    return True
+                a = mtab[a][0]
+            return False
+        mm = list(ms) + [(x, ab) for u in uses for x, ab in tmeths[u] if x not in own and not (ab and inherited_body(x))]
+        mtab[name] = (par, mm)
+        merged.append((name, par, abstract, impls, mm))
     full_classes = classes
     classes = merged
     base = [c[0] for c in classes] + [i[0] for i in ifaces]
